@@ -207,3 +207,22 @@ Print Assumptions C02_src_pin_paths_parse_ignore.
 Theorem C02_parent_missing_refused_unless_directory : forall s, s <> SDir -> parent_missing_outcome s = Refused.
 Proof. exact parent_missing_refused_unless_directory. Qed.
 Print Assumptions C02_parent_missing_refused_unless_directory.
+
+(* ---- further functions on this property's path, pinned token for token as validated (dependency review after rounds 5 and 6:
+   each missed change had edited a pinned function that this property did not cite) ---- *)
+From XcpPins Require Import Pin_operations_new Pin_linux_copy_node Pin_parfile_copy Pin_parblock_copy Pin_operations_copy_file.
+Theorem C02_src_pin_operations_new : pin_unchanged name_operations_new.
+Proof. exact pin_operations_new. Qed.
+Theorem C02_src_pin_linux_copy_node : pin_unchanged name_linux_copy_node.
+Proof. exact pin_linux_copy_node. Qed.
+Theorem C02_src_pin_parfile_copy : pin_unchanged name_parfile_copy.
+Proof. exact pin_parfile_copy. Qed.
+Theorem C02_src_pin_parblock_copy : pin_unchanged name_parblock_copy.
+Proof. exact pin_parblock_copy. Qed.
+Theorem C02_src_pin_operations_copy_file : pin_unchanged name_operations_copy_file.
+Proof. exact pin_operations_copy_file. Qed.
+Print Assumptions C02_src_pin_operations_new.
+Print Assumptions C02_src_pin_linux_copy_node.
+Print Assumptions C02_src_pin_parfile_copy.
+Print Assumptions C02_src_pin_parblock_copy.
+Print Assumptions C02_src_pin_operations_copy_file.
